@@ -88,7 +88,16 @@ pub fn case_begin() -> u64 {
     sim::sim().reset();
     crate::shims::reset();
     track::take_events();
-    track::mark()
+    let m = track::mark();
+    LAST_MARK.store(m, std::sync::atomic::Ordering::Relaxed);
+    m
+}
+
+static LAST_MARK: std::sync::atomic::AtomicU64 = std::sync::atomic::AtomicU64::new(0);
+
+/// The tracker mark of the case begun last.
+pub fn last_mark() -> u64 {
+    LAST_MARK.load(std::sync::atomic::Ordering::Relaxed)
 }
 
 impl World {
